@@ -1,8 +1,29 @@
 # Seeded generator of API scripts for harness/c17_alloc.c and harness/c18_threads.c
 # (script language: harness/c17_api.h).  All randomness comes from the rng passed in.
 import binascii, re
+import gen_c17_csrc as CS
 
-MIX_OPT_CLASSES = False
+MIX_OPT_CLASSES = True
+# c2mir's debug printer (option d -> print_node) reads wide / UTF-16 string literals out of bounds (print_chars16/32
+# index by byte offset; fixes/C17-2.patch).  Until that is in the tree, units with such literals are not compiled with d.
+DEBUG_WIDE_OK = False
+
+
+def tree_flags(repo):
+    """set the flags above from the tree under test (called by checks/c17.py and checks/c18.py)"""
+    global DEBUG_WIDE_OK
+    try:
+        txt = open(repo + '/c2mir/c2mir.c', errors='replace').read()
+        DEBUG_WIDE_OK = '((mir_char32 *) str)[i]' not in txt
+    except OSError:
+        DEBUG_WIDE_OK = False
+
+
+def debug_ok(src):
+    return DEBUG_WIDE_OK or re.search(r'\b(?:L|u|U)"', src) is None
+
+
+EXCLUDE_TAGS = set()   # tags of gen_c17_csrc units a caller wants left out (checks/c18.py: defect awaiting its fix commit)
 
 # C translation units; every one defines  long f@N@ (long n)  and uses no external header file
 # (c2mir's built-in <stdint.h>/<stddef.h>/<limits.h>/<stdarg.h> are strings inside c2mir.c)
@@ -253,146 +274,253 @@ def hexs(s):
 
 
 class Scen:
-    """one context's script; self.lines = list of api lines (without the ctx prefix)"""
+    """one context's script; self.lines = list of api lines (without the ctx prefix).
+    threads=True (C18): the script may continue, after MIR_finish, with a second context created by the same
+    thread that reads back the binary image the first one wrote."""
 
-    def __init__(self, rng, serial, n_modules=None, allow_read=False):
+    IFACES = ['interp', 'gen', 'lazy', 'lazybb']
+
+    def __init__(self, rng, serial, n_modules=None, allow_read=False, threads=False):
         self.rng, self.serial = rng, serial
         self.lines, self.funcs, self.kinds = [], [], []
         self.func_line = {}
         self.allow_read = allow_read
+        self.threads = threads
         self.nmod = n_modules or rng.choice([1, 1, 2, 3, 4])
-        # Levels 0-1 and 2-3 are not mixed inside one MIR_gen_init..MIR_gen_finish session: raising the level
-        # from <2 to >=2 crashes the register allocator (mir-gen.c assign(): busy_used_locs shorter than
-        # used_locs) -- a defect of another property (reported to the coordinator), not an allocator-contract matter.
-        self.opt_levels = rng.choice([[0, 1], [2, 3]]) if not MIX_OPT_CLASSES else [0, 1, 2, 3]
+        self.mods = []          # per module: list of callable function names ([] for a module without f)
+        self.image = None       # (kind, [functions callable after reading it back]) of the last binary image written
+        self.headers_done = False
+        # Optimisation levels are mixed freely inside one MIR_gen_init session (the defect that forbade raising the
+        # level from <2 to >=2 was fixed in /repo, 32f1502a).
+        self.opt_levels = [0, 1, 2, 3] if MIX_OPT_CLASSES else rng.choice([[0, 1], [2, 3]])
         self.build()
 
     def name(self):
         self.serial[0] += 1
         return str(self.serial[0])
 
+    def _c2m_on(self):
+        if not self.c2m_on:
+            self.lines.append('c2m_init')
+            self.c2m_on = True
+
+    def _new_func(self, f, kind):
+        self.funcs.append((f, kind))
+        self.func_line[f] = len(self.lines) - 1
+        self.mods.append([f])
+
+    def add_c_module(self):
+        rng = self.rng
+        n = self.name()
+        extra = []
+        if rng.random() < 0.55:
+            tag, src, need = rng.choice([u for u in CS.UNITS if u[0] not in EXCLUDE_TAGS])
+            kind = 'c:' + tag
+        else:
+            i = rng.randrange(len(C_POOL))
+            tag, src, need = 'c%d' % i, C_POOL[i], ''
+            kind = 'c%d' % i
+        if 'I' in need.split(',') and not self.headers_done:
+            for hn in sorted(CS.HEADERS):
+                self.lines.append('file %s %s' % (hn, hexs(CS.HEADERS[hn])))
+            self.headers_done = True
+        self._c2m_on()
+        if rng.random() < 0.12:
+            # a compilation that produces no module: preprocess only / syntax check only
+            self.lines.append('c2mo p%s.c %s %s' % (n, ','.join([x for x in [need.replace('@N@', n)] if x] + [rng.choice(['E', 'S'])]),
+                                                   hexs(src.replace('@N@', n))))
+            self.kinds.append('c2m-nomodule')
+            n = self.name()
+        if rng.random() < 0.35:
+            extra = rng.sample(['v', 'd', 'w', 'asm', 'obj'], rng.choice([1, 1, 2]))
+            if 'asm' in extra and 'obj' in extra:
+                extra.remove('obj')
+            if 'd' in extra and not debug_ok(src):
+                extra.remove('d')
+        opts = ','.join([x for x in [need.replace('@N@', n)] if x] + extra)
+        if opts:
+            self.lines.append('c2mo u%s.c %s %s' % (n, opts, hexs(src.replace('@N@', n))))
+        else:
+            self.lines.append('c2m u%s.c %s' % (n, hexs(src.replace('@N@', n))))
+        self._new_func('f' + n, kind)
+        self.kinds.append('c2m')
+        self.kinds.append(kind)
+        for x in extra:
+            self.kinds.append('c2m-opt-' + x)
+        if rng.random() < 0.25:
+            self.lines.append('c2m_finish')
+            self.c2m_on = False
+
     def add_module(self):
         rng = self.rng
         k = rng.random()
-        if k < 0.45:
-            i = rng.randrange(len(C_POOL))
-            n = self.name()
-            if not self.c2m_on:
-                self.lines.append('c2m_init')
-                self.c2m_on = True
-            self.lines.append('c2m u%s.c %s' % (n, hexs(C_POOL[i].replace('@N@', n))))
-            self.funcs.append(('f' + n, 'c%d' % i)); self.func_line['f' + n] = len(self.lines) - 1
-            self.kinds.append('c2m')
-            if rng.random() < 0.25:
-                self.lines.append('c2m_finish')
-                self.c2m_on = False
-        elif k < 0.53:
+        if k < 0.5:
+            self.add_c_module()
+        elif k < 0.57:
             n = self.name()
             self.lines.append('scan ' + hexs(stress_module(rng, n, rng.choice([20, 60, 150]))))
-            self.funcs.append(('f' + n, 'stress')); self.func_line['f' + n] = len(self.lines) - 1
+            self._new_func('f' + n, 'stress')
             self.kinds.append('stress')
-        elif k < 0.75:
+        elif k < 0.77:
             i = rng.randrange(len(MIR_POOL))
             n = self.name()
             self.lines.append('scan ' + hexs(MIR_POOL[i].replace('@N@', n)))
-            self.funcs.append(('f' + n, 'm%d' % i)); self.func_line['f' + n] = len(self.lines) - 1
+            self._new_func('f' + n, 'm%d' % i)
             self.kinds.append('scan')
         else:
             n = self.name()
             v = rng.randrange(4)
             self.lines.append('api %s %d' % (n, v))
-            self.funcs.append(('apif' + n, 'a%d' % v)); self.func_line['apif' + n] = len(self.lines) - 1
+            self._new_func('apif' + n, 'a%d' % v)
             self.kinds.append('api')
 
-    def run_funcs(self, iface):
+    def io_steps(self, readable):
+        """text / binary output of what the context holds now; `readable`: the image may be read back later"""
         rng = self.rng
-        for f, kind in rng.sample(self.funcs, min(len(self.funcs), rng.choice([1, 2, 3]))):
+        if rng.random() < 0.35:
+            k = rng.choice(['output', 'output', 'outmod', 'outitems'])
+            self.lines.append(k if k == 'output' else '%s %d' % (k, rng.randrange(len(self.mods) or 1)))
+            self.kinds.append(k)
+        # no binary write once functions have been linked under the lazy-BB interface: BB-wise generation leaves the IR
+        # transformed (MIR_write then fails with "UNSPEC, USE, or PHI is not portable") -- the same /repo limitation
+        # as for an explicit MIR_gen under that interface
+        if rng.random() < 0.4 and self.mods and 'lazybb' not in self.func_iface.values():
+            k = rng.choice(['write', 'fwrite', 'wmod', 'fwmod'])
+            if k in ('write', 'fwrite'):
+                self.lines.append(k)
+                fs = [f for m in self.mods for f in m]
+            else:
+                i = rng.randrange(len(self.mods))
+                self.lines.append('%s %d' % (k, i))
+                fs = list(self.mods[i])
+            self.kinds.append(k)
+            self.image = (k, fs) if readable else None
+
+    def run_funcs(self, iface, gen_on):
+        rng = self.rng
+        for f, kind in rng.sample(self.linked_funcs, min(len(self.linked_funcs), rng.choice([1, 2, 3]))):
             arg = rng.choice([0, 1, 2, 7, 12, 33])
             # no explicit MIR_gen under the lazy-BB interface: after a function has run BB-wise its IR is left transformed
             # (MIR_gen then fails with "undeclared reg" or builds a CFG from stale label data -- wild writes under ASan);
-            # a defect of another property (C16: generation can be repeated), reported to the coordinator
-            how = rng.choice(['call', 'call', 'interp'] if iface == 'interp' else
-                             ['call', 'call', 'gen'] if iface != 'lazybb' else ['call'])
+            # a limitation of /repo investigated under C16 (generation can be repeated)
+            fi = self.func_iface[f]
+            how = rng.choice(['call', 'call', 'interp', 'interpa'] if fi == 'interp' else
+                             ['call', 'call', 'gen'] if fi != 'lazybb' and gen_on else ['call'])
+            if fi in ('lazy', 'lazybb') and not gen_on:
+                continue     # its thunk would enter a generator that is gone
             if how == 'gen':
                 self.lines.append('gen %s' % f)
-            self.lines.append('%s %s %d' % ('interp' if how == 'interp' else 'call', f, arg))
+                how = 'call'
+            self.lines.append('%s %s %d' % (how, f, arg))
+
+    def wave(self, first):
+        """load + link what was added since the last wave, then run some functions"""
+        rng = self.rng
+        iface = rng.choice(self.IFACES) if first or rng.random() < 0.3 else self.iface
+        if not first and iface != self.iface:
+            self.kinds.append('iface-change')
+        self.iface = iface
+        self.lines.append('load')
+        if iface != 'interp' and not self.gen_on or (iface == 'interp' and not self.gen_on and rng.random() < 0.3):
+            self.lines.append('gen_init')
+            self.gen_on = True
+            self.kinds.append('gen')
+            self.dbg = 0
+            # generator debug output, level 1 only and never while a lazy-BB function exists: from level 2 on (level 1 for
+            # BB-wise generation) the generator dumps machine code by writing _mir_<pid>.c into the current directory and
+            # running gcc/objdump through system()
+            if rng.random() < 0.15 and iface != 'lazybb' and 'lazybb' not in self.func_iface.values():
+                self.lines.append('gen_dbg 1')
+                self.kinds.append('gen_dbg')
+                self.dbg = 1
+        if iface == 'lazybb' and self.gen_on and getattr(self, 'dbg', 0):
+            self.lines.append('gen_dbg 0')
+            self.dbg = 0
+        if self.gen_on and (first or rng.random() < 0.6):
+            self.lines.append('opt %d' % rng.choice(self.opt_levels))
+        self.lines.append('link ' + iface)
+        self.kinds.append('link-' + iface)
+        for f, kind in self.funcs:
+            if f not in self.func_iface:
+                self.func_iface[f] = iface
+        self.linked_funcs = list(self.funcs)
+        self.run_funcs(iface, self.gen_on)
 
     def build(self):
         rng = self.rng
         self.c2m_on = False
+        self.gen_on = False
+        self.iface = None
+        self.func_iface = {}
+        self.linked_funcs = []
         self.lines.append('init')
         for _ in range(self.nmod):
             self.add_module()
-        if rng.random() < 0.3:
-            self.lines.append('output')
-        if rng.random() < 0.35:
-            self.lines.append(rng.choice(['write', 'fwrite']))
-            self.kinds.append('write')
+        self.io_steps(readable=True)
         if rng.random() < 0.08 and not self.allow_read:
             # build-only history: never loaded
             self.finish()
             return
-        self.lines.append('load')
-        iface = rng.choice(['interp', 'gen', 'lazy', 'lazybb'])
-        self.iface = iface
-        gen_on = False
-        if iface != 'interp' or rng.random() < 0.3:
-            self.lines.append('gen_init')
-            gen_on = True
-            self.lines.append('opt %d' % rng.choice(self.opt_levels))
-            self.kinds.append('gen')
-        self.lines.append('link ' + iface)
-        self.kinds.append('link-' + iface)
-        self.run_funcs(iface)
-        if rng.random() < 0.4:
-            # a second wave of modules after the first link
+        self.wave(True)
+        nw = rng.choice([0, 0, 0, 1, 1, 2])
+        for w in range(nw):
+            if self.gen_on and rng.random() < 0.2 and all(i in ('interp', 'gen') for i in self.func_iface.values()):
+                # end the generator session; code generated so far stays valid (no lazy thunk is outstanding)
+                self.lines.append('gen_finish')
+                self.gen_on = False
+                self.kinds.append('gen-session-end')
             for _ in range(rng.choice([1, 2])):
                 self.add_module()
-            if gen_on and rng.random() < 0.5:
-                self.lines.append('opt %d' % rng.choice(self.opt_levels))
-            self.lines.append('load')
-            self.lines.append('link ' + iface)
-            self.run_funcs(iface)
-        if rng.random() < 0.25:
-            self.lines.append('output')
-        if rng.random() < 0.2:
-            self.lines.append('write')
-        self.gen_on = gen_on
+            self.wave(False)
+        self.io_steps(readable=False)
         self.finish()
 
     def finish(self):
         rng = self.rng
         tail = []
-        if getattr(self, 'gen_on', False):
+        if self.gen_on:
             tail.append('gen_finish')
         if self.c2m_on:
             tail.append('c2m_finish')
         rng.shuffle(tail)
         self.lines += tail + ['finish']
+        self.gen_on = self.c2m_on = False
+        if self.threads and self.image is not None and self.image[1] and rng.random() < 0.7:
+            self.lines += reader_lines(rng, self.image)
+            self.kinds += ['reread-' + self.image[0]]
+
+
+def reader_lines(rng, image):
+    """a fresh context that reads the binary image (kind, functions) held in the script's byte buffer and runs it"""
+    kind, fs = image
+    iface = rng.choice(Scen.IFACES)
+    bl = ['init', rng.choice(['read', 'fread']), 'load']
+    fin = ['finish']
+    if iface != 'interp':
+        bl += ['gen_init', 'opt %d' % rng.randrange(4)]
+        fin = ['gen_finish', 'finish']
+    bl.append('link ' + iface)
+    for f in fs:
+        if rng.random() < 0.7:
+            bl.append('%s %s %d' % ('interp' if iface == 'interp' else 'call', f, rng.choice([0, 3, 9])))
+    return bl + fin
 
 
 def reader_scenario(rng):
     """context 0 builds modules and writes them (binary); context 1 reads them back and runs them while
     context 0 is still alive or already finished"""
     serial = [0]
-    a = Scen(rng, serial)
-    if 'load' not in a.lines:
+    a = None
+    for _ in range(20):
+        a = Scen(rng, serial)
+        if a.image is not None and a.image[1] and 'load' in a.lines:
+            break
+    else:
         return None
     al = list(a.lines)
-    k = al.index('load')
-    al.insert(k, 'write')
-    iface = rng.choice(['interp', 'gen', 'lazy', 'lazybb'])
-    bl = ['init', 'take 0', 'read', 'load']
-    fin = ['finish']
-    if iface != 'interp':
-        bl += ['gen_init', 'opt %d' % rng.randrange(4)]  # one level per session
-        fin = ['gen_finish', 'finish']
-    bl.append('link ' + iface)
-    # only functions that existed when the image was written
-    for f, _ in a.funcs:
-        if a.func_line[f] < k and rng.random() < 0.7:
-            bl.append('call %s %d' % (f, rng.choice([0, 3, 9])))
-    bl += fin
+    k = max(i for i, l in enumerate(al[:al.index('load')]) if l.split()[0] in ('write', 'fwrite', 'wmod', 'fwmod'))
+    bl = reader_lines(rng, a.image)
+    bl.insert(1, 'take 0')
     out, i, j = [], 0, 0
     while i < len(al) or j < len(bl):
         if i <= k or (i < len(al) and rng.random() < 0.5) or j >= len(bl):
@@ -400,12 +528,12 @@ def reader_scenario(rng):
                 out.append('0 ' + al[i]); i += 1
                 continue
         out.append('1 ' + bl[j]); j += 1
-    return out, dict(ctxs=2, kinds=a.kinds + ['read', 'link-' + iface])
+    return out, dict(ctxs=2, kinds=a.kinds + ['read-' + a.image[0], 'reader-' + bl[2], 'reader-link-' + [l for l in bl if l.startswith('link')][0][5:]])
 
 
 def scenario(rng, two_ctx_prob=0.3):
     """returns (list of '<ctx> <line>' script lines, summary dict)"""
-    if rng.random() < 0.12:
+    if rng.random() < 0.15:
         r = reader_scenario(rng)
         if r is not None:
             return r
@@ -434,11 +562,19 @@ def fixed_scenarios():
         return 'k%d' % n[0]
     for iface in ('interp', 'gen', 'lazy', 'lazybb'):
         for lvl in ((0, 2) if iface != 'interp' else (1,)):
-            L = ['init', 'c2m_init']
+            L = ['init'] + ['file %s %s' % (hn, hexs(CS.HEADERS[hn])) for hn in sorted(CS.HEADERS)] + ['c2m_init']
             fs = []
             for i in range(len(C_POOL)):
                 x = nm()
                 L.append('c2m u%s.c %s' % (x, hexs(C_POOL[i].replace('@N@', x))))
+                fs.append('f' + x)
+            for j, (tag, src, need) in enumerate(CS.UNITS):
+                x = nm()
+                extra = [['v'], ['asm'], ['obj', 'w'], ['d']][(j + len(out)) % 4] if j % 3 == 0 else []
+                if 'd' in extra and not debug_ok(src):
+                    extra = ['v']
+                L.append('c2mo u%s.c %s %s' % (x, ','.join([o for o in [need.replace('@N@', x)] if o] + extra) or '-',
+                                               hexs(src.replace('@N@', x))))
                 fs.append('f' + x)
             for i in range(len(MIR_POOL)):
                 x = nm()
@@ -467,20 +603,37 @@ def valid(lines):
     """is the script a legal, error-free-by-construction API history?  (used when shrinking a failing
     script: a shrunk script must still be a history the property quantifies over)"""
     st = {}
+
+    def fresh():
+        return dict(init=True, fin=False, c2m=False, gen=False, mods=[], loaded=0, linked=0, fiface={}, dead=set(),
+                    optclass=None)
     for l in lines:
-        m = re.match(r'^(\d) (\S+)(?: (\S+))?(?: (\S+))?', l)
+        m = re.match(r'^(\d) (\S+)(?: (\S+))?(?: (\S+))?(?: (\S+))?', l)
         if not m:
             return False
-        c, cmd, a1, a2 = m.group(1), m.group(2), m.group(3), m.group(4)
-        s = st.setdefault(c, dict(init=False, fin=False, c2m=False, gen=False, defined={}, nmod=0, loaded=0, linked=0,
-                                  iface=None, wrote=False, have=False, optclass=None))
+        c, cmd, a1, a2, a3 = m.group(1), m.group(2), m.group(3), m.group(4), m.group(5)
+        s = st.setdefault(c, dict(init=False, fin=False, image=None, files=set()))
         if cmd == 'init':
-            if s['init']:
+            if s['init'] and not s['fin']:
                 return False
-            s['init'] = True
+            keep = dict(image=s['image'], files=s['files'])
+            s.clear()
+            s.update(fresh())
+            s.update(keep)
+            continue
+        if cmd == 'take':
+            if a1 not in st or st[a1].get('image') is None:
+                return False
+            s['image'] = list(st[a1]['image'])
+            continue
+        if cmd == 'file':
+            if a1 is None or a2 is None:
+                return False
+            s['files'].add(a1)
             continue
         if not s['init'] or s['fin']:
             return False
+        defined = {f: i + 1 for i, fs in enumerate(s['mods']) for f in fs}
         if cmd == 'c2m_init':
             if s['c2m']:
                 return False
@@ -490,70 +643,95 @@ def valid(lines):
                 return False
             s['c2m'] = False
         elif cmd == 'c2m':
-            if not s['c2m'] or a1 is None:
+            if not s['c2m'] or a1 is None or a2 is None:
                 return False
-            s['nmod'] += 1
-            s['defined']['f' + a1[1:-2]] = s['nmod']
+            s['mods'].append(['f' + a1[1:-2]])
+        elif cmd == 'c2mo':
+            if not s['c2m'] or a1 is None or a2 is None or a3 is None:
+                return False
+            opts = a2.split(',')
+            try:
+                txt = binascii.unhexlify(a3).decode()
+            except Exception:
+                return False
+            if 'I' in opts and not set(CS.HEADERS) <= s['files']:
+                return False
+            if 'I' not in opts and re.search(r'#include\s+"', txt):
+                return False
+            for d in re.findall(r'\b((?:LIMIT|MODE|NAME)\d+)\b', txt):
+                if not any(o.startswith('D' + d) for o in opts):
+                    return False
+            if 'E' not in opts and 'S' not in opts:
+                s['mods'].append(['f' + a1[1:-2]])
         elif cmd == 'scan':
             try:
                 txt = binascii.unhexlify(a1).decode()
             except Exception:
                 return False
-            s['nmod'] += 1
-            for f in re.findall(r'^(\w+):\s+func', txt, re.M):
-                s['defined'][f] = s['nmod']
+            s['mods'].append(re.findall(r'^(\w+):\s+func', txt, re.M))
         elif cmd == 'api':
-            s['nmod'] += 1
-            s['defined']['apif' + a1] = s['nmod']
+            s['mods'].append(['apif' + a1])
         elif cmd in ('write', 'fwrite'):
-            s['wrote'] = cmd == 'write' or s['wrote']
-        elif cmd == 'take':
-            if a1 not in st or not st[a1]['wrote']:
+            if 'lazybb' in s['fiface'].values():
                 return False
-            s['have'] = True
-            s['taken'] = dict(st[a1]['defined'])
-        elif cmd == 'read':
-            if not s['have']:
+            s['image'] = [f for fs in s['mods'] for f in fs]
+        elif cmd in ('wmod', 'fwmod'):
+            if not s['mods'] or a1 is None or 'lazybb' in s['fiface'].values():
                 return False
-            s['nmod'] += 1
-            for f in s['taken']:
-                s['defined'][f] = s['nmod']
-        elif cmd == 'output':
-            pass
+            s['image'] = list(s['mods'][int(a1) % len(s['mods'])])
+        elif cmd in ('read', 'fread'):
+            if s['image'] is None:
+                return False
+            s['mods'].append(list(s['image']))
+        elif cmd in ('output', 'outmod', 'outitems'):
+            if cmd != 'output' and not s['mods']:
+                return False
         elif cmd == 'load':
-            s['loaded'] = s['nmod']
+            s['loaded'] = len(s['mods'])
         elif cmd == 'gen_init':
             if s['gen']:
                 return False
             s['gen'] = True
+            s['dbg'] = 0
             s['optclass'] = None
         elif cmd == 'gen_finish':
             if not s['gen']:
                 return False
             s['gen'] = False
-        elif cmd == 'opt':
+            s['dead'] |= {f for f, i in s['fiface'].items() if i in ('lazy', 'lazybb')}
+        elif cmd in ('opt', 'gen_dbg'):
             if not s['gen']:
                 return False
-            k = int(a1) >= 2
-            if s['optclass'] is not None and s['optclass'] != k and not MIX_OPT_CLASSES:
-                return False
-            s['optclass'] = k
+            if cmd == 'gen_dbg':
+                if a1 not in ('0', '1') or (a1 == '1' and 'lazybb' in s['fiface'].values()):
+                    return False
+                s['dbg'] = int(a1)
+            if cmd == 'opt':
+                k = int(a1) >= 2
+                if s['optclass'] is not None and s['optclass'] != k and not MIX_OPT_CLASSES:
+                    return False
+                s['optclass'] = k
         elif cmd == 'link':
             if a1 != 'interp' and not s['gen']:
                 return False
-            if s['iface'] is not None and s['iface'] != a1:
+            if a1 == 'lazybb' and s.get('dbg'):
                 return False
-            s['iface'] = a1
+            for f, i in defined.items():
+                if i <= s['loaded'] and f not in s['fiface']:
+                    s['fiface'][f] = a1
             s['linked'] = s['loaded']
-        elif cmd in ('call', 'interp', 'gen'):
-            if s['defined'].get(a1, 10 ** 9) > s['linked']:
+        elif cmd in ('call', 'interp', 'interpa', 'gen'):
+            if defined.get(a1, 10 ** 9) > s['linked'] or a1 not in s['fiface'] or a1 in s['dead']:
                 return False
-            if cmd == 'gen' and (not s['gen'] or s['iface'] == 'lazybb'):
+            fi = s['fiface'][a1]
+            if cmd == 'gen' and (not s['gen'] or fi not in ('gen', 'lazy')):
                 return False
-            if cmd == 'interp' and s['iface'] != 'interp':
+            if cmd in ('interp', 'interpa') and fi != 'interp':
                 return False
-            if cmd == 'call' and s['iface'] != 'interp' and not s['gen']:
+            if cmd == 'call' and fi in ('lazy', 'lazybb') and not s['gen']:
                 return False
+        elif cmd == 'fill':
+            pass
         elif cmd == 'finish':
             if s['gen'] or s['c2m']:
                 return False
